@@ -10,7 +10,7 @@ import (
 
 func init() {
 	register("C04", propMeta{
-		Explanation: "Decides who can mint, burn, lock and unlock NFTs and under which verified event: the NFT module's mutators are called only from SendNftTransfer, Keeper.OnRecvPacket and refundPacketToken, which are reachable only from the NftTransfer message, AppModule.OnRecvPacket and AppModule.OnAcknowledgementPacket, and those callbacks only from the core handlers' router dispatch; on send exactly one of {lock into the module account, burn} of the caller's own (class,id) debiting the sender parameter precedes SendPacket, selected by the very boolean written into the packet; a native class shaped like a voucher path is rejected before the direction decision; on receive, minting (voucher class = hash of the path extended by the packet's own source/dest and data.Class, id = data.Id, to the module account, then to the receiver decoded from data.Receiver) happens exactly under data.AwayFromOrigin and the escrow release (class parsed back from data.Class, id = data.Id, module account -> receiver) exactly under its negation, both only after data.ValidateBasic and receiver decoding succeeded; refund: unlock to the decoded data.Sender under data.AwayFromOrigin, re-mint + hand over under its negation, only for an error acknowledgement; escrow releases occur nowhere else; the acknowledgement callback runs only on the packet's source chain. Also: the class-trace codec is lossless (GetFullClassPath = Path + delimiter + BaseClass, ParseClassTrace = whole string / Split-Join / LastIndex form with the same delimiter), so two class paths never share a voucher class; Keeper.AcknowledgePacket acts only while the packet's own commitment matches and deletes exactly that commitment on every success path (a refund cannot be replayed). NOT decided: uniqueness of ownership across chains, id collisions inside the NFT module, multi-hop histories.",
+		Explanation: "Decides who can mint, burn, lock and unlock NFTs and under which verified event: the NFT module's mutators are called only from SendNftTransfer, Keeper.OnRecvPacket and refundPacketToken, which are reachable only from the NftTransfer message, AppModule.OnRecvPacket and AppModule.OnAcknowledgementPacket, and those callbacks only from the core handlers' router dispatch; on send exactly one of {lock into the module account, burn} of the caller's own (class,id) debiting the sender parameter precedes SendPacket, selected by the very boolean written into the packet; a native class shaped like a voucher path is rejected before the direction decision; on receive, minting (voucher class = hash of the path extended by the packet's own source/dest and data.Class, id = data.Id, to the module account, then to the receiver decoded from data.Receiver) happens exactly under data.AwayFromOrigin and the escrow release (class parsed back from data.Class, id = data.Id, module account -> receiver) exactly under its negation, both only after data.ValidateBasic and receiver decoding succeeded; refund: unlock to the decoded data.Sender under data.AwayFromOrigin, re-mint + hand over under its negation, only for an error acknowledgement; escrow releases occur nowhere else; the acknowledgement callback runs only on the packet's source chain. Also: the class-trace codec is lossless (GetFullClassPath = Path + delimiter + BaseClass, ParseClassTrace = whole string / Split-Join / LastIndex form with the same delimiter), so two class paths never share a voucher class; the path helpers insert exactly one element in front of the base class on the way out and remove exactly that element on the way back, keeping every other hop (compared as element sequences); Keeper.AcknowledgePacket acts only while the packet's own commitment matches and deletes exactly that commitment on every success path (a refund cannot be replayed). NOT decided: uniqueness of ownership across chains, id collisions inside the NFT module, multi-hop histories.",
 		Assumptions: []string{"the NFT module enforces ownership in TransferOwner/BurnNFT for the owner argument it is given"},
 		Trusted:     commonTrusted,
 	}, func(w *World, r *Report) { ruleTransferApp(w, r, "C04", apps[0]) })
@@ -25,7 +25,7 @@ func init() {
 		Trusted:     commonTrusted,
 	}, ruleC06)
 	register("C19", propMeta{
-		Explanation: "Decides error discipline: in all Msg handlers, both application callbacks and the keeper functions below them no error of a keeper, light-client or token-module call is discarded or overtaken by a success return, except the two sanctioned conversions (ErrUnauthorized -> written error acknowledgement in msgServer.RecvPacket; application error -> error acknowledgement in AppModule.OnRecvPacket) and one reasoned discard; AppModule.OnRecvPacket returns an error acknowledgement (never a result acknowledgement) whenever the keeper callback failed; in the keeper callbacks all input validation (ValidateBasic, address decoding, class-prefix check) dominates the first token mutation, so an invalid packet is answered with an error acknowledgement before any token state is touched; on the ErrUnauthorized path the packet layer writes exactly receipt, acknowledgement and maxAck; nothing reachable from a handler writes package-level state (shared with C20). No code reachable from a message handler or application callback branches the store (CacheContext/CacheMultiStore): what a successful path commits is everything its steps wrote. NOT decided: that a failing message leaves the store unchanged (SDK branching, trusted); token state after an error acknowledgement caused by a token-module failure in the middle of a multi-step mint (needs a cached context - reported as INFO, not armed).",
+		Explanation: "Decides error discipline: in all Msg handlers, both application callbacks and the keeper functions below them no error of a keeper, light-client or token-module call is discarded or overtaken by a success return, except the two sanctioned conversions (ErrUnauthorized -> written error acknowledgement in msgServer.RecvPacket; application error -> error acknowledgement in AppModule.OnRecvPacket) and one reasoned discard; AppModule.OnRecvPacket returns an error acknowledgement (never a result acknowledgement) whenever the keeper callback failed; in the keeper callbacks all input validation (ValidateBasic, address decoding, class-prefix check) dominates the first token mutation, so an invalid packet is answered with an error acknowledgement before any token state is touched; on the ErrUnauthorized path the packet layer writes exactly receipt, acknowledgement and maxAck; nothing reachable from a handler writes package-level state (shared with C20). No code reachable from a message handler or application callback branches the store (CacheContext/CacheMultiStore): what a successful path commits is everything its steps wrote; no reachable method writes memory that hangs off a Keeper / msgServer / AppModule object (state outside the store survives a rolled-back message). NOT decided: that a failing message leaves the store unchanged (SDK branching, trusted); token state after an error acknowledgement caused by a token-module failure in the middle of a multi-step mint (needs a cached context - reported as INFO, not armed).",
 		Assumptions: []string{"cosmos-sdk store branching discards writes of failed messages"},
 		Trusted:     commonTrusted,
 	}, ruleC19)
